@@ -17,10 +17,14 @@ type wireEditCfg struct {
 	// OddBool: bools may hold a byte other than 0 and 1 (accepted by the decoder; what the Go
 	// value then is stays outside the model, so only differential checks ask for it)
 	OddBool bool
-	MaxInsert                               int
+	// Dup: a known or unknown field may occur twice with the same bytes (decided: the value is that
+	// value however the occurrences are combined) or, one time in four, with a value of another
+	// wire type under the same id (skipped like any mismatching field)
+	Dup       bool
+	MaxInsert int
 }
 
-var fullEdit = wireEditCfg{Shuffle: true, Drop: true, Insert: true, Retype: true, Renumber: true, Trailing: true, MaxInsert: 3}
+var fullEdit = wireEditCfg{Shuffle: true, Drop: true, Insert: true, Retype: true, Renumber: true, Trailing: true, Dup: true, MaxInsert: 3}
 
 var foreignTypes = []*core.TypeSpec{
 	{Kind: core.KBool}, {Kind: core.KI8}, {Kind: core.KI16}, {Kind: core.KI32}, {Kind: core.KI64}, {Kind: core.KDouble},
@@ -140,6 +144,18 @@ func editStruct(t *rapid.T, n *core.WNode, e wireEditCfg, depth int, stats map[s
 			n.Fields[pos] = nf
 			stats["insert"]++
 		}
+	}
+	if e.Dup && len(n.Fields) > 0 && rapid.IntRange(0, p+3).Draw(t, "dup") == 0 {
+		i := rapid.IntRange(0, len(n.Fields)-1).Draw(t, "dupi")
+		cp := n.Fields[i]
+		if rapid.IntRange(0, 3).Draw(t, "dupother") == 0 {
+			cp.V, cp.T = genForeignValue(t, int(cp.T)) // another wire type under the same id: skipped
+		}
+		pos := rapid.IntRange(0, len(n.Fields)).Draw(t, "duppos")
+		n.Fields = append(n.Fields, core.WField{})
+		copy(n.Fields[pos+1:], n.Fields[pos:])
+		n.Fields[pos] = cp
+		stats["dup"]++
 	}
 	if e.Shuffle && len(n.Fields) > 1 && rapid.IntRange(0, 2).Draw(t, "shuffle") == 0 {
 		n.Fields = rapid.Permutation(n.Fields).Draw(t, "perm")
